@@ -23,7 +23,7 @@ EXPLANATION = (
     "argument binding over all signature shapes (inspect.signature semantics), from_format/to_format conversions."
 )
 LEVEL_RULE = "one obligation per validate call site / obj_getter branch / wrapper / forwarding call in decorators.py"
-FLOORS = {"R1": 7, "R2": 3, "R3": 4, "R4": 2, "R5": 5, "R6": 2, "R7": 2, "R8": 1, "R9": 1, "R10": 2}
+FLOORS = {"R1": 7, "R2": 3, "R3": 4, "R4": 2, "R5": 5, "R6": 2, "R7": 2, "R8": 1, "R9": 1, "R10": 2, "R11": 1, "R12": 1}
 
 DEC = "pandera/decorators.py"
 OPTS = ["head", "tail", "sample", "random_state", "lazy", "inplace"]
@@ -217,9 +217,72 @@ def r10_accessor_marks_instance_only(ctx):
         raise AnalysisError(f"accessor add_schema / schema methods: found {n}")
 
 
+def r11_unwrap_only_optional(ctx):
+    """AnnotationInfo replaces `Optional[X]` by X (the first argument) and remembers `optional`.  That unwrapping is sound
+    for Optional only: applied to any Union it silently discards the other members, and check_types validates a value
+    that satisfies `DataFrame[B]` against `DataFrame[A]`.  The statement that takes `get_args(...)[0]` therefore sits under
+    a test of `optional`."""
+    from ..cfg import cfg_of
+    m = ctx.ix.module("pandera/typing/common.py")
+    n = 0
+    for f in m.all_functions:
+        cfg = None
+        for x in walk_no_nested(f.node):
+            if isinstance(x, ast.Subscript) and isinstance(x.value, ast.Call) and callee_last(x.value) == "get_args" \
+                    and isinstance(x.slice, ast.Constant) and x.slice.value == 0 and isinstance(getattr(x, "_parent", None), ast.Assign):
+                n += 1
+                cfg = cfg or cfg_of(f.node)
+                node = cfg.node_of(enclosing_stmt(x))
+                guards = [(txt(t), pol) for t, pol in (cfg.guards(node.id) if node is not None else [])]
+                if not any("is_union_type" in g for g, _ in guards):
+                    n -= 1
+                    continue   # another use of get_args(...)[0] (the argument of a Literal), not the union unwrapping
+                ok = any("optional" in g and pol for g, pol in guards)
+                ctx.ob("R11", f, f"{f.short}: a union annotation is reduced to its first member only when it is Optional", ok,
+                       f"under {[g for g, _ in guards]}" if ok else
+                       f"`{txt(enclosing_stmt(x))[:60]}` is reached for any Union (guards {[g for g, _ in guards]}): Union[DataFrame[A], DataFrame[B]] is validated as DataFrame[A] only", f.loc(x))
+    if n < 1:
+        raise AnalysisError("typing/common.py: Optional unwrapping (get_args(...)[0]) not found")
+
+
+def r12_pydantic_validate_returns_validated(ctx):
+    """`check_types(with_pydantic=True)` and pydantic models receive what `pydantic_validate` returns.  That has to be the
+    object `schema.validate(data)` returned (coerced, defaults filled, filtered), as plain check_types passes - returning
+    the raw input after a validation run for its verdict only hands the body unparsed data."""
+    from ..util import Expander
+    n = 0
+    for mp in ("pandera/typing/pandas.py", "pandera/typing/geopandas.py", "pandera/typing/polars.py"):
+        m = ctx.ix.by_path.get(mp)
+        if m is None:
+            continue
+        for f in m.all_functions:
+            if f.name != "pydantic_validate":
+                continue
+            vals = [c for c in calls_in(f.node) if callee_last(c) == "validate" and isinstance(c.func, ast.Attribute)]
+            if not vals:
+                continue
+            n += 1
+            ctx.touched(f)
+            ex = Expander(f.node)
+            bound = set()
+            for st in walk_no_nested(f.node):
+                if isinstance(st, ast.Assign) and isinstance(st.value, ast.Call) and st.value in vals:
+                    bound |= {t.id for t in st.targets if isinstance(t, ast.Name)}
+            rets = [r.value for r in walk_no_nested(f.node) if isinstance(r, ast.Return) and r.value is not None]
+            flows = bool(bound) and any(isinstance(x, ast.Name) and x.id in bound for r in rets for d in ex.closure(r) for x in ast.walk(d))
+            ctx.ob("R12", f, f"{mp.split('/')[-1]}::pydantic_validate returns the validated object", flows,
+                   "the result of schema.validate flows into the return value" if flows else
+                   "schema.validate(data) is run for its verdict only and the raw input is returned: with coerce / defaults / strict='filter' the decorated body "
+                   "gets unparsed data", f.loc(vals[0]))
+    if n < 1:
+        raise AnalysisError("typing: pydantic_validate with a schema.validate call not found")
+
+
 def run(ctx):
     r9_positional_writeback(ctx)
     r10_accessor_marks_instance_only(ctx)
+    r11_unwrap_only_optional(ctx)
+    r12_pydantic_validate_returns_validated(ctx)
     from ..defassign import check_modules
     check_modules(ctx, "R8", ('pandera/decorators.py',), "escapes the decorated call instead of the SchemaError(s)")
     ix = ctx.ix
